@@ -1,9 +1,10 @@
 import Fix8Model.Tables.Realm
+import Fix8Model.Tables.SortedSet
 import Fix8Model.Basic.Digits
 import Fix8Model.Gen.TablesUTEST
 import Drivers.Common
 namespace Drivers.Tab
-open Fix8Model.Realm Fix8Model.Gen
+open Fix8Model.Realm Fix8Model.Gen Fix8Model.SortedSet
 
 /-- order-preserving code of a NUL-free string of at most 32 bytes (same as tools/gen_facts.py) -/
 def encStr (s : List Nat) : Int :=
@@ -17,6 +18,26 @@ def valueOf (ty : Nat) (txt : List Nat) : Int :=
   if ty = 0 then Fix8Model.Digits.fastAtoi txt
   else if ty = 1 then (txt.getD 0 0 : Nat)
   else encStr txt
+
+def stepS (st : PSet) (line : String) : PSet × String :=
+  match Drivers.words line with
+  | ["new", _, r] =>
+    match r.toNat? with
+    | some r => (⟨[], calcReserve 0 r, r⟩, "ok")
+    | none => (st, "bad-op")
+  | ["ins", k] =>
+    match k.toInt? with
+    | some k =>
+      let r : PSet × Bool := Fix8Model.SortedSet.insert st k
+      (r.1, s!"{if r.2 then 1 else 0} sz={r.1.arr.length} rsz={r.1.rsz}")
+    | none => (st, "bad-op")
+  | ["fnd", k] =>
+    match k.toInt? with
+    | some k => (st, s!"{if (find st k).2 then 1 else 0}")
+    | none => (st, "bad-op")
+  | ["clr"] => (clear st, "ok")
+  | ["arr"] => (st, " ".intercalate (st.arr.map toString) ++ ".")
+  | _ => (st, "")
 
 def step (line : String) : String :=
   match Drivers.words line with
@@ -54,5 +75,9 @@ def step (line : String) : String :=
       | none => "no-msg"
     | _, _ => "bad-op"
   | _ => "bad-op"
+
+def stepAll (st : PSet) (line : String) : PSet × String :=
+  let r := stepS st line
+  if r.2 == "" then (st, step line) else r
 
 end Drivers.Tab
